@@ -157,8 +157,26 @@ pub fn query_sound(e: &Env, g: &Ghost, k: usize) {
     prop!(want.is_none() || o.id == want.unwrap(), "C10.consecutive.history.owner_of_equals_ghost_owner");
 }
 
+/// loop-free reference of `find_bit_in_item` (first set bit at or after `start`, MSB = position 0)
+pub fn item_scan_ref(input: Option<u32>, start: u32) -> Option<u32> {
+    match input {
+        None => None,
+        Some(num) => {
+            if start >= u32::BITS {
+                return None;
+            }
+            let m = num & (u32::MAX >> start);
+            if m == 0 {
+                None
+            } else {
+                Some(m.leading_zeros())
+            }
+        }
+    }
+}
+
 #[kani::proof]
-#[kani::unwind(34)]
+#[kani::unwind(25)]
 pub fn h1_one_batch_one_op() {
     setup_world();
     let e = Env::default();
@@ -168,5 +186,26 @@ pub fn h1_one_batch_one_op() {
     witness!(g.ops[0].burn, "op0.burn");
     witness!(!g.ops[0].burn && g.ops[0].to != g.ops[0].from, "op0.transfer");
     query_sound(&e, &g, 1);
+    end_overflow_only();
+}
+
+// ---- probes (development only)
+#[kani::proof]
+#[kani::unwind(25)]
+pub fn p1_mint_only() {
+    setup_world();
+    let e = Env::default();
+    let (n0, _n1) = mint_two(&e, false);
+    witness!(n0 > 64, "crosses");
+    end_overflow_only();
+}
+#[kani::proof]
+#[kani::unwind(25)]
+pub fn p2_mint_query() {
+    setup_world();
+    let e = Env::default();
+    let (n0, n1) = mint_two(&e, false);
+    let g = Ghost { n0, n1, ops: [NOOP, NOOP, NOOP] };
+    query_sound(&e, &g, 0);
     end_overflow_only();
 }
